@@ -116,7 +116,7 @@ class Sched(object):
     def is_enabled(self, t):
         return t.state == "ready" and (t.guard is None or t.guard())
 
-    STEP_TIMEOUT = 8.0
+    STEP_TIMEOUT = 20.0
 
     def step(self, t, timeout=False):
         """Runs thread t until its next yield point (or its end).  A thread that does not come back within STEP_TIMEOUT
@@ -406,6 +406,40 @@ def make_shims(S, hooks):
 
     qm.Queue, qm.Empty, qm.Full = Queue, Empty, Full
     return th, qm
+
+
+def trace_fields(S, cls, names, lock_attr):
+    """Turns the named instance fields of `cls` into scheduling points: a read or a write by a controlled thread that
+    does NOT hold the object's lock (attribute `lock_attr`, a shim lock) first yields to the scheduler (operation
+    ("fld_read" | "fld_write", name)), so that an unprotected read-modify-write can be interleaved with another
+    thread's update.  Reads under the lock are not scheduling points; no event is emitted either way."""
+    def make(name):
+        slot = "_traced_" + name
+
+        def unprotected(obj):
+            me = S.me()
+            if me is None:
+                return False
+            lk = obj.__dict__.get(lock_attr)
+            return lk is None or getattr(lk, "owner", None) is not me
+
+        def fget(obj):
+            if unprotected(obj):
+                S.yield_(("fld_read", name))
+            return obj.__dict__[slot]
+
+        def fset(obj, value):
+            # every write is a scheduling point (also under the lock): an UNPROTECTED reader elsewhere may look at the
+            # field just before it - the lock does not keep such a reader out
+            if slot in obj.__dict__ and S.me() is not None:
+                S.yield_(("fld_write" if unprotected(obj) else "fld_write_locked", name))
+            obj.__dict__[slot] = value
+        return property(fget, fset)
+    for n in names:
+        setattr(cls, n, make(n))
+
+
+POOL_COUNTERS = ("_ThreadPool__nb_threads", "_ThreadPool__nb_active_threads", "_ThreadPool__nb_pending_task")
 
 
 def load_module_with_shims(modname, th, qm):
